@@ -12,6 +12,7 @@ IN = "FteikVerif.Proofs.GenEquivInterp"
 VI = "FteikVerif.Proofs.GenEquivVInterp"
 ST = "FteikVerif.Proofs.GenStructure"
 RE = "FteikVerif.Proofs.GenReal"
+GS = "FteikVerif.Proofs.GenSolver"
 SRCS = "FteikVerif.Props.SourceSolver"
 SRCI = "FteikVerif.Props.SourceInterp"
 SRCV = "FteikVerif.Props.SourceVInterp"
@@ -24,8 +25,10 @@ GRADI = ["Fteik.gen_sweep2_grad_indep", "Fteik.gen_sweep2_nograd_sgn", "Fteik.ge
          "Fteik.gen_sweep3_nograd_sgn"]
 INTERP = ["Fteik.gen_interp2d", "Fteik.gen_interp3d"]
 VINTERP = ["Fteik.gen_vinterp2d", "Fteik.gen_vinterp3d", "Fteik.gen_dist2d", "Fteik.gen_dist3d"]
-K2 = ["F2.t_ana", "F2.t_anad", "F2.delta", "F2.sweep", "Common.norm2d"]
-K3 = ["F3.t_ana", "F3.t_anad", "F3.sweep", "Common.norm3d"]
+K2 = ["F2.t_ana", "F2.t_anad", "F2.delta", "F2.sweep", "Common.norm2d", "F2.sweep2d", "F2.fteik2d"]
+K3 = ["F3.t_ana", "F3.t_anad", "F3.sweep", "Common.norm3d", "F3.sweep3d", "F3.fteik3d"]
+GENSOLVER = ["Fteik.gen_fteik2d_head", "Fteik.gen_fteik2d_error_iff", "Fteik.gen_fteik2d_error_kind", "Fteik.gen_fteik2d_vzero",
+             "Fteik.gen_fteik3d_head", "Fteik.gen_fteik3d_error_iff", "Fteik.gen_fteik3d_error_kind"]
 KI = ["I2._interp2d", "I3._interp3d"]
 KV = ["V2._vinterp2d", "V3._vinterp3d", "Common.dist2d", "Common.dist3d", "Common.norm2d", "Common.norm3d"]
 
@@ -39,6 +42,9 @@ TABLE = {
     "C05": ([S2, S3, RE, SRCS], SOLVER2 + SOLVER3 + ["Fteik.farLaw_real", "Fteik.Source_C05_sweep_slowness",
                                   "Fteik.Source_C05_sweep_length"], K2 + K3),
     "C18": ([S2, S3, IN, RE], SOLVER2 + SOLVER3 + INTERP + ["Fteik.farLaw_real"], K2 + K3 + KI),
+    # the whole solvers as translated: decision logic of the domain check, vzero
+    "C03": ([GS], GENSOLVER, ["F2.fteik2d", "F3.fteik3d"]),
+    "C13": ([GS], GENSOLVER, ["F2.fteik2d", "F3.fteik3d"]),
     # structure only: insensitive to the operator formulas
     "C07": ([ST], STRUCT, ["F2.sweep", "F3.sweep"]),
     "C11": ([ST], GRADI, ["F2.sweep", "F3.sweep"]),
